@@ -13,6 +13,10 @@
 #include <unistd.h>
 #include <fcntl.h>
 
+#if defined(__SANITIZE_ADDRESS__)
+extern "C" int __lsan_do_recoverable_leak_check(void);
+#endif
+
 namespace vf {
 
 // ---- motifs: where particles sit inside an occupied leaf -------------------------------------------
@@ -320,6 +324,13 @@ inline int supervise(const Args& args, const std::string& property, const std::f
             Progress pg; pg.sh = sh; pg.skipUntil = skipUntil;
             body(rep, pg);
             pg.publish(rep);
+#if defined(__SANITIZE_ADDRESS__)
+            // the child leaves through _exit: run the leak check explicitly (C15)
+            if(__lsan_do_recoverable_leak_check()){
+                Outcome o; o.add("leak:memory-leaked", "LeakSanitizer reported leaks at the end of the slice (report on stderr of the driver)");
+                rep.addOutcome(o, "slice " + std::to_string(args.slice) + " of " + std::to_string(args.nbSlices));
+            }
+#endif
             rep.write(childOut);
             _exit(0);
         }
